@@ -6,7 +6,7 @@ from analysis.facts import norm_path
 from analysis.sym import sym, show_in, nosite, peel, core, walk, ret_values, args_of, guards_at, atoms_at, \
     variant_facts_at, cmp_facts_at, init_value, edge_guards, symbolizer, simplify, loop_source, defs_of, var_defs
 from analysis.pat import match, Call, Cap, ANY, Pred, Const, has, chain_names
-from rules.common import closure_of, closures_in, panic_sites, state_locals, local_defs, V
+from rules.common import closure_of, closures_in, panic_sites, state_locals, local_defs, V, resolve_upvars
 
 EW = 'corrupt::edit_word'
 
@@ -408,3 +408,64 @@ def r_segflag(ctx):
 def r_charstring(ctx):
     from rules import c11
     c11.charstring_primitive(ctx)
+
+
+@rule('C15', 'R-C15-10', 'T10 PROVENANCE (the chosen edit kind is an enabled one)',
+      'every unwrap of a provider option (insert / delete / replace / swap) in edit_word runs in the match arm of a kind code that was read '
+      'OUT OF the collection of enabled kinds, and that collection receives the code only under provider.is_some(): a kind computed by '
+      'arithmetic (`first_enabled + random_range(0..num_enabled)`) lands on a disabled kind whenever the enabled kinds are not contiguous')
+def r10(ctx):
+    from analysis.seq import seq_of
+    from analysis.sym import guards_at
+    b = ctx.body(EW)
+    prov = {i: b.var_name(i) for i in range(1, b.arg_count + 1) if b.local_ty(i).startswith('std::option::Option<&') and b.var_name(i) in ('insert', 'delete', 'replace', 'swap')}
+    if len(prov) != 4:
+        raise AnchorMissing('the four provider parameters of edit_word (found %s)' % sorted(prov.values()))
+    sites = []
+    for t in b.calls(r'Option::(unwrap|expect)$'):
+        v = core(sym(b, t.args[0]))
+        if v[0] == 'arg' and v[1] in prov:
+            sites.append((prov[v[1]], v[1], t.bb, t))
+    for c in closures_in(ctx, b):
+        for t in c.calls(r'Option::(unwrap|expect)$'):
+            v = core(resolve_upvars(ctx, c, core(sym(c, t.args[0]))))
+            if v[0] == 'arg' and v[1] in prov:
+                top = c
+                while top.parent != b.path and ctx.facts.by_path.get(top.parent):
+                    top = ctx.facts.by_path[top.parent][0]
+                made = [s_ for s_, d_ in b.closures_created() if d_ == top.path]
+                if made:
+                    sites.append((prov[v[1]], v[1], made[0].bb, t))
+    for name, argi, bb, t in sites:
+        ok, why = False, 'no match arm on a kind code dominates it'
+        for g in guards_at(b, bb):
+            if g.dty == 'bool' or g.values is None or len(g.values) != 1 or g.t[0] == 'discr':
+                continue
+            k = list(g.values)[0]
+            x = core(g.t)
+            if x[0] == 'call' and x[1].endswith('::choose') and x[2]:
+                x = ('index', x[2][0], ('call', 'rand::Rng::random_range', (ANY, ANY)))   # `*kinds.choose(rng).unwrap()`: an element of the collection as well
+            if not (x[0] == 'index' and (has(x[2], Call('random_range', ANY, ANY)) or x[2][0] == 'call')):
+                why = 'the kind code tested in its match arm is `%s`, not an element read out of the collection of enabled kinds' % show_in(b, g.t)[:100]
+                continue
+            segs = seq_of(ctx.facts, b, x[1])
+            mine = [s_ for s_ in segs or () if s_.kind == 'one' and core(s_.elem)[0] == 'const' and core(s_.elem)[2] == k]
+            ok = len(mine) == 1 and len(mine[0].conds) == 1 and mine[0].conds[0][1] is True and \
+                match(core(mine[0].conds[0][0]), Call('Option::is_some', ('arg', argi, ANY)))
+            why = 'the code %d enters the collection of enabled kinds under %s' % (k, [repr(s_)[:80] for s_ in mine])
+            if not ok and not mine and segs is not None and len(segs) == 1 and segs[0].kind == 'each':
+                # table form: `[insert.is_some(), delete.is_some(), ..].iter().enumerate().filter_map(|(kind, &on)| on.then_some(kind))`:
+                # the code is the position in the table, kept when the entry at that position is true
+                from analysis.seq import ITEM as _IT
+                sg = segs[0]
+                arr = [x_ for x_ in walk(init_value(b, sg.src)) if isinstance(x_, tuple) and x_ and x_[0] == 'agg' and x_[1] == 'array']
+                keeps = len(sg.conds) == 1 and sg.conds[0][1] is True and core(sg.conds[0][0]) == ('field', _IT, 1) and core(sg.elem) == ('field', _IT, 0) and \
+                    has(core(sg.src), Call('enumerate', ANY))
+                if keeps and len(arr) == 1 and k < len(arr[0][3]):
+                    ok = match(core(arr[0][3][k]), Call('Option::is_some', ('arg', argi, ANY)))
+                    why = 'entry %d of the table of enabled kinds is `%s`' % (k, show_in(b, arr[0][3][k])[:60])
+            if ok:
+                break
+        ctx.require(ok, b, 'enabled-kind|' + name, '`%s.unwrap()` (line %d) runs only for a kind code that was pushed under %s.is_some()' % (name, t.span['line'], name),
+                    '`%s.unwrap()` (line %d) is not justified: %s -- with a non-contiguous set of enabled kinds a disabled provider is unwrapped (panic)' % (name, t.span['line'], why), t.span)
+    ctx.ok(b, '%d provider unwrap sites of edit_word inspected' % len(sites))
